@@ -113,6 +113,10 @@ def _run_case(case):
         # open finding: attributed only when, in these builds, a list merge left partial survivors (root cause): the list pre-filter
         # dropped nodes of the newer value, or the pruning of an older list removed some but not all of its elements
         fid = 'list-prefilter-partial-survivor' if (probes.counters['prefilter_drops'] or probes.counters['partial_list_prune']) else None
+        if fid is None and same(base, rep, ordered=False) and any(n.get('del') is True and n['t'] == 'map' for _, n in tdoc.walk(docs[-1])):
+            # second open finding: the data are equal, only the order of keys differs, and the repeated document holds a !del mapping
+            # (a key it removes and writes again keeps its place the first time if protected descendants kept it alive, and moves to the end otherwise)
+            fid = 'del-rewritten-key-order'
         raise Violation(f'C15[idempotence]: repeating the last document changes the result from {base!r} to {rep!r}{src}', finding=fid)
     # empty-neutral
     for pos in range(len(texts) + 1):
